@@ -273,6 +273,13 @@ func RunC03(c *Ctx) {
 			c.Sample(entry, input, "mutant/splice/random workload")
 		}
 	})
+	// 4b. sentences of grammar G (systematic set under three renderings + random): valid input has to be total too
+	if ExtraSentences != nil {
+		ExtraSentences(c, c.Pick(20_000, 400_000), func(entry, input string) {
+			CheckC03(c, entry, input)
+			c.Count("g_sentences", 1)
+		})
+	}
 	// 5. corpus itself under every entry point (also the wrong ones)
 	for i, cc := range c.Corpus() {
 		if c.Mine(i) {
